@@ -56,17 +56,20 @@ ViewWith(lf, key) == IF \E i \in DOMAIN view[lf] : view[lf][i] = key THEN view E
 (* origins of a logical file: all items of its ORIGIN sets, in view order   *)
 RECURSIVE Concat(_)
 Concat(ss) == IF ss = << >> THEN << >> ELSE ss[1] \o Concat(Tail(ss))
-OriginKeys(lf) == SelectSeq(view[lf], LAMBDA k : k[1] = "ORIGIN")
-OriginsOf(lf) == Concat([i \in DOMAIN OriginKeys(lf) |-> SetItems(OriginKeys(lf)[i])])
+OriginKeysIn(vw) == SelectSeq(vw, LAMBDA k : k[1] = "ORIGIN")
+OriginsIn(vw) == Concat([i \in DOMAIN OriginKeysIn(vw) |-> SetItems(OriginKeysIn(vw)[i])])
+OriginKeys(lf) == OriginKeysIn(view[lf])
+OriginsOf(lf) == OriginsIn(view[lf])
 DefaultOriginRef(lf) == IF OriginsOf(lf) = << >> THEN NoOrigin ELSE items[OriginsOf(lf)[1]].origin
 
-(* next_available_origin_ref(explicit, origins)                             *)
+(* next_available_origin_ref(explicit, origins): `origins` are those of the view AFTER try_add_set(parent), i.e. *)
+(* they include the items of a set another logical file created under the same name                               *)
 RECURSIVE FirstFree(_, _)
 FirstFree(n, used) == IF n \in used THEN FirstFree(n + 1, used) ELSE n
-NextOriginRef(lf, explicit) ==
-  LET used == { items[OriginsOf(lf)[i]].origin : i \in DOMAIN OriginsOf(lf) } IN
-  IF explicit # 0 THEN explicit ELSE FirstFree(Len(OriginsOf(lf)), used)
-OriginClash(lf, explicit) == explicit # 0 /\ \E i \in DOMAIN OriginsOf(lf) : items[OriginsOf(lf)[i]].origin = explicit
+NextOriginRef(orgs, explicit) ==
+  LET used == { items[orgs[i]].origin : i \in DOMAIN orgs } IN
+  IF explicit # 0 THEN explicit ELSE FirstFree(Len(orgs), used)
+OriginClash(orgs, explicit) == explicit # 0 /\ \E i \in DOMAIN orgs : items[orgs[i]].origin = explicit
 
 CopyNumber(key, name) == Cardinality({ i \in DOMAIN SetItems(key) : items[SetItems(key)[i]].name = name })
 
@@ -89,20 +92,22 @@ AddLogicalFile ==
 (* back-filling of every item without origin in the sets of this logical file                                  *)
 AddOrigin(lf, name, sn, explicit) ==
   /\ Len(hist) < MaxCalls /\ lf \in 1..nlf
-  /\ LET key == Key("ORIGIN", sn) IN
-     IF OriginClash(lf, explicit)
+  /\ LET key  == Key("ORIGIN", sn)
+         vw1  == ViewWith(lf, key)[lf]          \* try_add_set happens before the origins are looked at
+         orgs == OriginsIn(vw1)
+     IN
+     IF OriginClash(orgs, explicit)
      THEN \* RuntimeError before anything is created: only the set has been fetched / made
           /\ reg' = RegWith(key) /\ view' = ViewWith(lf, key)
           /\ Log([k |-> "add_origin", lf |-> lf, name |-> name, sn |-> sn, ref |-> explicit, ok |-> FALSE], items, hc)
           /\ UNCHANGED << nlf, items, hc >>
      ELSE
      LET reg1  == RegWith(key)
-         ref   == NextOriginRef(lf, explicit)
-         first == OriginsOf(lf) = << >>
+         ref   == NextOriginRef(orgs, explicit)
+         first == orgs = << >>                  \* exactly one origin in the logical file's origin sets once this one is added
          id    == Len(items) + 1
          it    == [lf |-> lf, cls |-> "ORIGIN", sn |-> sn, name |-> name, copy |-> CopyNumber(key, name), origin |-> ref, explicit |-> explicit # 0]
-         mine   == { SetItems(view[lf][k])[j] : k \in DOMAIN view[lf], j \in 1..0 } \cup
-                   UNION { { SetItems(view[lf][k])[j] : j \in DOMAIN SetItems(view[lf][k]) } : k \in DOMAIN view[lf] }
+         mine   == UNION { { SetItems(vw1[k])[j] : j \in DOMAIN SetItems(vw1[k]) } : k \in DOMAIN vw1 }
          filled == IF first THEN [i \in DOMAIN items |-> IF i \in mine /\ items[i].origin = NoOrigin THEN [items[i] EXCEPT !.origin = ref] ELSE items[i]]
                    ELSE items
      IN /\ reg' = [reg1 EXCEPT ![CHOOSE i \in DOMAIN reg1 : reg1[i].key = key].items = Append(@, id)]
